@@ -16,6 +16,13 @@ class AnalysisError(Exception):
     """An anchor vanished / a construct is not understood: exit 2, never 1."""
 
 
+def _positional_names(fnode):
+    a = fnode.args
+    if a.vararg is not None:
+        return []      # extra positionals would change meaning
+    return [x.arg for x in a.posonlyargs + a.args]
+
+
 def _attach_parents(tree):
     for node in ast.walk(tree):
         for child in ast.iter_child_nodes(node):
@@ -831,6 +838,70 @@ class Repo:
                 except SyntaxError as e:
                     raise AnalysisError('cannot parse %s: %s' % (fn, e))
         self._resolve_class_bases()
+        self._keyword_call_normal_form()
+
+    def _keyword_call_normal_form(self):
+        """f(a, c=3, b=2) on a function of the repository whose parameters
+        are (a, b, c): the keywords that name the next positional
+        parameters are positional arguments.  Only callees that resolve
+        exactly -- module-level functions and self.method(..) inside the
+        class that defines or inherits the method -- and only parameters
+        that are not keyword-only.  (Constructor calls are left alone: the
+        declarations `Lambda(with_context=True)` are read by keyword.)"""
+        for mod in self.modules.values():
+            for c in ast.walk(mod.tree):
+                if not (isinstance(c, ast.Call) and c.keywords) or any(
+                        k.arg is None for k in c.keywords) or any(
+                        isinstance(a, ast.Starred) for a in c.args):
+                    continue
+                names = None
+                f = c.func
+                fn = enclosing(c, (ast.FunctionDef, ast.AsyncFunctionDef))
+                local = set()
+                scope = fn
+                while scope is not None:
+                    local |= local_names_of(scope)
+                    scope = enclosing(scope, (ast.FunctionDef,
+                                              ast.AsyncFunctionDef))
+                if isinstance(f, ast.Attribute) and isinstance(
+                        f.value, ast.Name) and fn is not None and \
+                        fn.args.args and f.value.id == fn.args.args[0].arg:
+                    cd = getattr(fn, '_parent', None)
+                    ci = next((x for x in mod.classes.values()
+                               if x.node is cd), None) \
+                        if isinstance(cd, ast.ClassDef) else None
+                    m = self.find_method(ci, f.attr) if ci else None
+                    if m is not None and not isinstance(
+                            m, AliasFuncInfo) and not any(
+                            norm(d) in ('staticmethod', 'classmethod',
+                                        'property')
+                            for d in m.node.decorator_list):
+                        # overriding subclasses may order them differently
+                        others = [k for k in self.all_classes()
+                                  if f.attr in k.methods and
+                                  k.methods[f.attr] is not m]
+                        sig = _positional_names(m.node)[1:]
+                        if all(_positional_names(
+                                k.methods[f.attr].node)[1:] == sig
+                                for k in others):
+                            names = sig
+                elif isinstance(f, (ast.Name, ast.Attribute)):
+                    d = self.dotted(mod, f, local)
+                    tgt = self.lookup(d) if d else None
+                    if isinstance(tgt, FuncInfo) and tgt.cls is None \
+                            and tgt.parent_func is None and not isinstance(
+                                tgt, AliasFuncInfo) and \
+                            not tgt.node.decorator_list:
+                        names = _positional_names(tgt.node)
+                if not names:
+                    continue
+                kw = {k.arg: k for k in c.keywords}
+                while len(c.args) < len(names) and \
+                        names[len(c.args)] in kw:
+                    k = kw.pop(names[len(c.args)])
+                    c.keywords.remove(k)
+                    k.value._parent = c
+                    c.args.append(k.value)
 
     # -- lookup ---------------------------------------------------------
     def module(self, name):
